@@ -530,6 +530,7 @@ def correspondence(ctx, model_ok=True):
                    "for every 4th case",
            "samples": cases[:3], "model_runner": "Eval vm_compute in generated cases files (sharded coqc)",
            "failures": [], "broken": []}
+    out["all_cases"] = cases          # the driver runs the property oracle on these as well
     per_class = {}
 
     def add(case, msg, detail):
